@@ -479,7 +479,7 @@ package message
 
 // ---- bounded ClassAd reader (C13): one byte budget across the whole ad, secret branch included ----
 //@ func getClassAdFromMessageWithMaxSize (m, maxSize, ctx) (result, err)
-//@   props C13
+//@   props C13 C08
 //@   requires inv: [typeinv] msgInv(m)
 //@   assigns @msgRead, strmEncrypting, strmSaved, @strmToggle(m.stream), parseIntCount, parseIntValue, parseIntOK
 //@   ensures inv_kept: msgInv(m)
@@ -488,10 +488,10 @@ package message
 //@   loop 1 invariant budget: msgInv(m) && 0 <= totalBytesRead && (maxSize > 0 ==> totalBytesRead <= maxSize + 1)
 //@   loop 1 invariant buf_own: m.buffer == old(m.buffer) && m.stream == old(m.stream) && (ref(m.buffer.buf) == old(ref(m.buffer.buf)) || fresh(m.buffer.buf))
 //@   loop 1 invariant progress: [C13] 0 <= i && (maxSize > 0 ==> i <= totalBytesRead) && (maxSize <= 0 ==> i <= (rdTotal - viewLen(m)) - P0 + 8)
-//@   assert before call Message).GetStringWithMaxSize #1 budget_expr: maxSize > 0 && 0 < arg2 && arg2 == maxSize - totalBytesRead
-//@   assert before call Message).getSecretStringWithMaxSize #1 budget_secret: maxSize > 0 && 0 < arg2 && arg2 == maxSize - totalBytesRead
-//@   assert before call Message).GetStringWithMaxSize #2 budget_mytype: maxSize > 0 && 0 < arg2 && arg2 == maxSize - totalBytesRead
-//@   assert before call Message).GetStringWithMaxSize #3 budget_targettype: maxSize > 0 && 0 < arg2 && arg2 == maxSize - totalBytesRead
+//@   assert before call Message).GetStringWithMaxSize #1 budget_expr: [C13 C08] maxSize > 0 && 0 < arg2 && arg2 == maxSize - totalBytesRead
+//@   assert before call Message).getSecretStringWithMaxSize #1 budget_secret: [C13 C08] maxSize > 0 && 0 < arg2 && arg2 == maxSize - totalBytesRead
+//@   assert before call Message).GetStringWithMaxSize #2 budget_mytype: [C13 C08] maxSize > 0 && 0 < arg2 && arg2 == maxSize - totalBytesRead
+//@   assert before call Message).GetStringWithMaxSize #3 budget_targettype: [C13 C08] maxSize > 0 && 0 < arg2 && arg2 == maxSize - totalBytesRead
 //@   assert before call Message).GetString #1 uncapped_only: maxSize <= 0
 //@   assert before call Message).GetString #2 uncapped_only: maxSize <= 0
 //@   assert before call Message).GetString #3 uncapped_only: maxSize <= 0
@@ -513,6 +513,8 @@ package message
 //@   callcount [C08] closed_set_of_shortcuts: 5 ClassAd).Set
 //@   assert before call ClassAd).Set #5 string_shortcut_only_for_a_lone_literal: [C08] len(trimmed) >= 2 && trimmed[0] == 34 && trimmed[len(trimmed) - 1] == 34 && !ContainsAny(unquoted, "\\\"")
 //@   assert before call ClassAd).Set #3 integer_shortcut_is_a_full_parse: [C08] parseIntOK && parseIntCount == old(parseIntCount) + 1
+//@   assert before call ClassAd).Set #3 integer_shortcut_only_for_undotted_numerals: [C08] len(valueStr) > 0 && (valueStr[0] == 45 || (48 <= valueStr[0] && valueStr[0] <= 57)) && !Contains(valueStr, ".")
+//@   assert before call ClassAd).Set #4 real_shortcut_only_for_dotted_numerals: [C08] len(valueStr) > 0 && (valueStr[0] == 45 || (48 <= valueStr[0] && valueStr[0] <= 57)) && Contains(valueStr, ".")
 
 //@ func decodeOldClassAdString (inner) (result, ok)
 //@   props C13 C08
